@@ -280,8 +280,87 @@ def index_infer_case(ctx: Ctx, stream: str, i: int) -> None:
         check(ctx, stream, i, t, 'index-inferred-structure:T')
 
 
+def dtype_grid_case(ctx: Ctx, stream: str, i: int) -> None:
+    """every parametrised leaf class × (parameter dtype, data dtype): what `mv` returns has the declared dtype, and when
+    the parameter is NO WIDER than the data (the property's domain) the output keeps the data's dtype — Python numbers
+    (weakly typed) never widen anything"""
+    from furax._base.core import HomothetyOperator
+    from furax._base.dense import DenseBlockDiagonalOperator
+    from furax._base.diagonal import BroadcastDiagonalOperator, DiagonalOperator
+    from furax.landscapes import StokesPyTree
+    from furax.operators.qu_rotations import QURotationOperator
+    from furax.operators.toeplitz import SymmetricBandToeplitzOperator
+    x64 = bool(jax.config.jax_enable_x64)
+    reals = [jnp.float16, jnp.bfloat16, jnp.float32] + ([jnp.float64] if x64 else [])
+    datas = reals + [jnp.complex64, jnp.int32]
+    params = reals + [jnp.int32, 'python-float', 'python-int'] + ([jnp.complex64])
+    classes = ['homothety', 'diagonal', 'broadcast-diagonal', 'qurot', 'dense', 'toeplitz']
+    cls_name = classes[i % len(classes)]
+    ddt = datas[(i // len(classes)) % len(datas)]
+    pdt = params[(i // (len(classes) * len(datas))) % len(params)]
+    n = 3
+
+    def parr(shape):
+        vals = np.arange(1, int(np.prod(shape)) + 1, dtype=np.float64).reshape(shape)
+        if pdt in ('python-float', 'python-int'):
+            return None
+        return jnp.asarray(vals, dtype=pdt)
+    s = jax.ShapeDtypeStruct((n,), ddt)
+    weak = pdt in ('python-float', 'python-int')
+    if cls_name == 'homothety':
+        v = 2.0 if pdt == 'python-float' else 2 if pdt == 'python-int' else jnp.asarray(2, dtype=pdt)
+        mk = lambda: HomothetyOperator(v, s)                                                  # noqa: E731
+    elif weak:
+        ctx.case(f'dtype-grid:skip:{cls_name}', False)
+        return
+    elif cls_name == 'diagonal':
+        mk = lambda: DiagonalOperator(parr((n,)), in_structure=s)                             # noqa: E731
+    elif cls_name == 'broadcast-diagonal':
+        mk = lambda: BroadcastDiagonalOperator(parr((2, n)), axis_destination=-1, in_structure=s)   # noqa: E731
+    elif cls_name == 'qurot':
+        if pdt == jnp.complex64 or pdt == jnp.int32 or ddt == jnp.int32:
+            ctx.case(f'dtype-grid:skip:{cls_name}', False)
+            return
+        mk = lambda: QURotationOperator(parr((n,)) / 7, StokesPyTree.class_for('IQU').structure_for((n,), ddt))   # noqa: E731
+    elif cls_name == 'dense':
+        mk = lambda: DenseBlockDiagonalOperator(parr((2, n)), s, 'ij...,j...->i...')          # noqa: E731
+    else:
+        if pdt in (jnp.complex64, jnp.int32, jnp.float16, jnp.bfloat16) or ddt in (jnp.complex64, jnp.int32, jnp.float16, jnp.bfloat16):
+            ctx.case(f'dtype-grid:skip:{cls_name}', False)     # the FFT of JAX has no half-precision kernels
+            return
+        mk = lambda: SymmetricBandToeplitzOperator(parr((2,)), s, method=['dense', 'direct', 'fft', 'overlap_save'][i % 4])   # noqa: E731
+    cfg = {'class': cls_name, 'data_dtype': str(np.dtype(ddt)), 'param_dtype': pdt if weak else str(np.dtype(pdt)), 'x64': x64}
+    st, op = safe(mk)
+    if st != 'ok':
+        ctx.count(f'dtype-grid:refused:{cls_name}')
+        ctx.case(f'dtype-grid:refused:{cfg}', False)
+        return
+    ins = op.in_structure()
+    st1, real = safe(jax.eval_shape, op.mv, ins)
+    sto, outs = safe(op.out_structure)
+    if st1 != 'ok' or sto != 'ok':
+        ctx.fail(stream, i, f'dtype-grid-raises:{cls_name}', f'eval_shape {st1} / out_structure {sto}', cfg)
+        return
+    got = [l.dtype for l in jax.tree.leaves(real)]
+    decl = [l.dtype for l in jax.tree.leaves(outs)]
+    # no wider than the data: the promotion of (parameter, data) is the data dtype.  (A parameter WIDER than the data
+    # promotes the result while a square operator declares its input structure: documented, outside the property.)
+    narrow = weak and not (pdt == 'python-float' and ddt == jnp.int32) or (not weak and jnp.result_type(pdt, ddt) == ddt)
+    if narrow and got != decl:
+        ctx.fail(stream, i, f'out-structure-dishonest:dtype:{cls_name}', f'out_structure() declares {[str(d) for d in decl]} but mv '
+                 f'returns {[str(d) for d in got]}', cfg)
+    if narrow and any(d != ddt for d in got):
+        ctx.fail(stream, i, f'dtype-not-kept:{cls_name}', f'parameter {cfg["param_dtype"]} is no wider than the data {cfg["data_dtype"]} but '
+                 f'mv returns {[str(d) for d in got]}', cfg)
+    ctx.count('dtype-grid:' + ('narrow' if narrow else 'wide'))
+    ctx.case(f'dtype-grid:{cfg}', True, sample=cfg)
+
+
 def run(ctx: Ctx) -> None:
     q = ctx.tier == 'quick'
+    for i in range(6 * 6 * 8 if q else 6 * 6 * 8 * 2):
+        if ctx.want('dtype-grid', i):
+            dtype_grid_case(ctx, 'dtype-grid', i)
     for i in range(120 if q else 2000):
         if ctx.want('index-infer', i):
             index_infer_case(ctx, 'index-infer', i)
